@@ -5,6 +5,7 @@ package h
 import (
 	"github.com/d5/tengo/v2"
 	"github.com/d5/tengo/v2/parser"
+	"strconv"
 	"verif/h/vf"
 )
 
@@ -100,6 +101,19 @@ func C03_TwinGen() {
 	vf.Reach("twingen")
 }
 
+// C03_TwinFail: twin compile of the generated failing programs (gen.go: one
+// failing statement at every position of every small nesting, also directly
+// after eliminated code): identical error text and positions; both map
+// iteration orders the engine offers (the optimizer rebuilds the source map by
+// iterating a Go map).
+func C03_TwinFail() {
+	ps := GenFailing()
+	p := ps[vf.Choice("prog", len(ps))]
+	vf.MapOrder(vf.Choice("maporder", 2))
+	c03TwinMay(Prog{Name: p.Name, Src: p.Src})
+	vf.Reach("twinfail")
+}
+
 // c03TwinMay: as c03Twin, for programs the compiler may reject: both
 // compilers must then reject, with the same message.
 func c03TwinMay(p Prog) {
@@ -115,7 +129,8 @@ func c03TwinMay(p Prog) {
 
 // ---- optimizer lemma on arbitrary small instruction streams
 
-var lemmaOps = []byte{parser.OpTrue, parser.OpPop, parser.OpReturn, parser.OpJump, parser.OpJumpFalsy, parser.OpAndJump, parser.OpOrJump, parser.OpGetLocal}
+var lemmaOps = []byte{parser.OpTrue, parser.OpPop, parser.OpReturn, parser.OpJump, parser.OpJumpFalsy, parser.OpAndJump, parser.OpOrJump, parser.OpGetLocal,
+	parser.OpBinaryOp, parser.OpConstant, parser.OpCall}
 
 type linstr struct {
 	op      byte
@@ -144,8 +159,13 @@ func C03_Lemma() {
 		case parser.OpReturn:
 			in.operand = vf.Choice("retv", 2)
 			insts = append(insts, tengo.MakeInstruction(op, in.operand)...)
-		case parser.OpGetLocal:
-			insts = append(insts, tengo.MakeInstruction(op, 0)...)
+		case parser.OpGetLocal, parser.OpBinaryOp:
+			// operand bytes are symbolic: the optimizer must treat them as data
+			insts = append(insts, tengo.MakeInstruction(op, int(vf.Byte("o"+strconv.Itoa(j))))...)
+		case parser.OpConstant:
+			insts = append(insts, tengo.MakeInstruction(op, int(vf.Uint16("w"+strconv.Itoa(j))))...)
+		case parser.OpCall:
+			insts = append(insts, tengo.MakeInstruction(op, int(vf.Byte("o"+strconv.Itoa(j))), int(vf.Byte("p"+strconv.Itoa(j))))...)
 		case parser.OpJump, parser.OpJumpFalsy, parser.OpAndJump, parser.OpOrJump:
 			in.jump = true
 			insts = append(insts, tengo.MakeInstruction(op, 0)...)
@@ -262,6 +282,17 @@ func C03_Lemma() {
 			vf.Assert(outs[oi].operand == image[told], "a surviving jump targets the image of its old target")
 		} else if is[j].op == parser.OpReturn {
 			vf.Assert(outs[oi].operand == is[j].operand, "operands of surviving instructions are unchanged")
+		} else {
+			// every byte of a surviving non-jump instruction is unchanged (operands symbolic)
+			ln := end - starts[j]
+			if j+1 < k {
+				ln = starts[j+1] - starts[j]
+			}
+			same := true
+			for q := 0; q < ln; q++ {
+				same = vf.And(same, out[outs[oi].pos+q] == orig[starts[j]+q])
+			}
+			vf.Assert(same, "a surviving instruction keeps its operand bytes")
 		}
 		oi++
 	}
